@@ -84,6 +84,8 @@ impl<'a> Decoder<'a> {
 
     /// Decodes and returns the next raw SPIR-V word.
     pub fn word(&mut self) -> Result<spirv::Word> {
+        #[cfg(feature = "verif-hooks")]
+        self.verif_event(crate::verif::DecReq::Word);
         if self.has_limit() {
             if self.limit_reached() {
                 return Err(Error::LimitReached(self.offset));
@@ -119,11 +121,15 @@ impl Decoder<'_> {
     /// after `num_words` words have been requested, if having not consumed
     /// the whole stream.
     pub fn set_limit(&mut self, num_words: usize) {
+        #[cfg(feature = "verif-hooks")]
+        self.verif_event(crate::verif::DecReq::SetLimit(num_words));
         self.limit = Some(num_words)
     }
 
     /// Clear the previously set limit (if any).
     pub fn clear_limit(&mut self) {
+        #[cfg(feature = "verif-hooks")]
+        self.verif_event(crate::verif::DecReq::ClearLimit);
         self.limit = None
     }
 
@@ -156,6 +162,8 @@ impl Decoder<'_> {
     /// null character (`\0`), or reaching the limit or end of the stream
     /// and erroring out.
     pub fn string(&mut self) -> Result<String> {
+        #[cfg(feature = "verif-hooks")]
+        self.verif_event(crate::verif::DecReq::Str);
         // If we have a limit, then don't search further than we need to.
         let slice = match self.limit {
             Some(limit) => &self.bytes[self.offset..(self.offset + limit * WORD_NUM_BYTES)],
@@ -201,6 +209,20 @@ impl Decoder<'_> {
 }
 
 include!("autogen_decode_operand.rs");
+
+#[cfg(feature = "verif-hooks")]
+impl Decoder<'_> {
+    /// Records the decoder state on entry of a request and counts a step.
+    fn verif_event(&self, req: crate::verif::DecReq) {
+        crate::verif::step();
+        crate::verif::emit(|| crate::verif::Event::Dec {
+            req,
+            offset: self.offset,
+            limit: self.limit,
+            len: self.bytes.len(),
+        });
+    }
+}
 
 #[cfg(test)]
 mod tests {
